@@ -118,7 +118,7 @@ def run(ctx):
         tlc_info = {"tlc": graph.summary, "graph_nodes": len(graph.nodes), "graph_edges": graph.n_edges,
                     "state_action_pairs_cross_checked_with_python_model": n_cross}
         ctx.note(f"[C23] TLC: {graph.summary}; {graph.n_edges} labelled edges; cross-checked {n_cross} (state, action) pairs with the Python model")
-    for connected in (True, False):
+    for connected, alphabet in ((True, alphabet), (False, alphabet), (True, H.EV_READS)):
         def on_tr(hist, ev, nxt, connected=connected):
             rec = nxt.sys.obs[-1]
             for sig, what in rec["problems"]:
@@ -128,7 +128,7 @@ def run(ctx):
         states += res.states
         trans += res.transitions
         samples += [list(h) for h in res.histories[-2:]]
-        ctx.note(f"[C23] connected_at_init={connected}: states={res.states} transitions={res.transitions} max_depth={res.max_depth}")
+        ctx.note(f"[C23] connected_at_init={connected} alphabet={len(alphabet)} events: states={res.states} transitions={res.transitions} max_depth={res.max_depth}")
     abstract_states = sorted({e[0] for e in edges} | {e[2] for e in edges})
     ctx.coverage.update(
         states=states, transitions=trans, traces_validated_against_impl=trans,
@@ -137,7 +137,7 @@ def run(ctx):
         rule="BFS over event histories on the real decorator; every transition is one model step validated against the "
              "implementation (subset-construction conformance); distinct_nontrivial = distinct (state, event kind, state) "
              "edges of the five-state protocol exercised",
-        samples=samples, depth=depth, alphabet=list(alphabet), exhaustive=True)
+        samples=samples, depth=depth, alphabet=list(H.EV_QUICK if ctx.quick else H.EV_THOROUGH), second_alphabet=list(H.EV_READS), exhaustive=True)
     if graph is not None:
         tlc_info["graph_edges_followed_during_the_exploration"] = len(covered)
         # replay of the model's traces: one trace per edge of the TLC graph (shortest path to the edge's source, then the
